@@ -267,6 +267,22 @@ pub fn j_accessor(c: i128, leap: &LeapTable, out: &mut Local) {
     let e = Epoch::from_duration(mk(c), TimeScale::TAI);
     let args = vec![enc(c)];
     let r = guard(|| (e.leap_seconds(true), e.leap_seconds(false), e.leap_seconds_iers()));
+    // the same instant held in another scale than UTC gives the same answers (the accessor reads the TAI view of the epoch)
+    for ts in [TimeScale::TT, TimeScale::GPST, TimeScale::BDT, TimeScale::TDB] {
+        let other = guard(|| {
+            let x = e.to_time_scale(ts);
+            (x.leap_seconds(true), x.leap_seconds(false), x.leap_seconds_iers(), alpha(x.to_time_scale(TimeScale::TAI).duration))
+        });
+        if let (Ok(a), Ok(b)) = (&r, &other) {
+            // (ET/TDB come back within nanoseconds: only judged when the instant is further than that from every entry)
+            let back_exact = b.3 == c;
+            let near = near_entry(leap, c, 1).is_some() || LatestLeapSeconds::default().any(|l| ((c as f64 / 1e9) - l.timestamp_tai_s).abs() < 1.0);
+            if (back_exact || !near) && (a.0 != b.0 || a.1 != b.1 || a.2 != b.2) {
+                out.viol("c06.accessor", format!("differs-for-the-same-instant-held-in-{}", scale_name(ts)), vec![enc(c)], format!("{a:?}"), format!("{:?}", (b.0, b.1, b.2)));
+                return;
+            }
+        }
+    }
     // ambiguity window of an entry: between its (UTC-indexed) timestamp and its TAI instant both readings of
     // "accumulated leap seconds of a TAI epoch" are defensible -> don't care
     let amb = leap.entries.iter().any(|(ts, d)| c >= *ts as i128 * NS && c < (*ts + *d) as i128 * NS);
